@@ -1,21 +1,22 @@
-\* C05 random walks (tlc -simulate -depth SimDepth+1): longer chains, larger chunks
+\* C05 behaviour export (edge cover), thorough tier: chunk sizes 1..3
 CONSTANTS
-  N = 12
-  Chunks = {1,2,3,4,7}
+  N = 3
+  Chunks = {1,2,3}
   TipTags = {"latest","finalized"}
-  BufCap = 2
+  BufCap = 1
   MaxForks = 0
-  MaxFails = 2
+  MaxFails = 1
   MaxPFails = 1
-  MaxRestarts = 1
+  MaxRestarts = 0
   Detector = FALSE
   RetryLimit = 5
   AtomicRemove = TRUE
   Contents = {0,1}
   FinLag = 0
-  NoIdle = TRUE
-  SimDepth = 199
+  NoIdle = FALSE
+  SimDepth = 0
 INIT Init
 NEXT Next
+VIEW view
 ACTION_CONSTRAINT Dump
 CHECK_DEADLOCK FALSE
